@@ -212,7 +212,7 @@ def run_harness(h, timeout_s=600, mem_gb=12, unwind=None, keep_trace=False, extr
     if failed:
         res.update(verdict="fail", failed=failed[:8])
         return res
-    unsat = [c for c in res["covers"] if not c["satisfied"]]
+    unsat = [c for c in res["covers"] if not c["satisfied"] and not (c["description"] or "").startswith("info:")]
     if unsat:
         res.update(verdict="inconclusive", reason="vacuity witness not reachable: " + unsat[0]["description"])
         return res
